@@ -35,6 +35,21 @@ def make_cases(tier, seed):
                     bp['cp'] = gen.gen_cp(r, 'full')
         c = {'id': 'p%05d' % i, 'preamble': pre, 'open': {'id': 'o0', 'kind': r.choice(['name', 'fd']), 'comp': r.choice(['none', 'none', 'gzip', 'xz'])},
              'ops': [{'op': 'qr', 'r': {'asn': '4153'}}, {'op': 'wb'}]}
+        if i % 5 == 3:
+            # parameter sets added through the exporter before the first block: a free-standing object, a clone of the active set
+            # (the argument is an element of the exporter's own vector), one object used as a template twice
+            adds = []
+            for _ in range(r.choice([1, 2, 4])):
+                bp = gen.gen_bp(r, rich=True)
+                bp['max'] = min(bp['max'], 2 ** 62)
+                op = {'op': 'addbp', 'bp': bp}
+                hw = r.random()
+                if hw < 0.35:
+                    op['how'] = 'clone_active'
+                elif hw < 0.65:
+                    op['how'] = 'twice'
+                adds.append(op)
+            c['ops'] = adds + c['ops']
         cases.append(c)
     # wide (>= 2^32) members of later parameter sets at every position of the 2048-byte encoder buffer: a text member of
     # the first set grows by one byte per case (2100 consecutive lengths cover every alignment of every following member)
@@ -109,6 +124,9 @@ def run(tier, seed):
                 continue
             c = pc['case']
             want = c['preamble']
+            hdr = pc['exp_out'][0].get('bps_header') if pc['exp_out'] else None
+            if hdr is not None and len(hdr) != len(want['bps']):
+                want = dict(want, bps=hdr)          # sets added through add_block_parameters() before the first block
             for bp in want['bps']:
                 for k in bp:
                     members[k] = members.get(k, 0) + 1
